@@ -56,4 +56,20 @@ PROPS = {
             "modulo SHA-256 collisions, as the property says",
         ],
     },
+    "C14": {
+        "level": "proof",
+        "suites": ["c14_parser", "c14_files_bundles"],
+        "rule": "rendered random rule ASTs (flat and bundled paths, shuffled and repeated entries, 0..n blank lines, missing final newline), "
+                "single-edit corruptions (deleted line, inserted blank/colon/tab-only line, indentation change, duplicated line, CR-LF), truncation at "
+                "every line, repeated-name shapes (file vs directory, both orders, at depth), token soup (tabs, CR, non-ASCII), every text of length "
+                "<= 5 (7 thorough) over {NL, TAB, ':', a, b}; several files; bundles directly. Both sides' Result compared exactly; monitors: valid "
+                "renderings must give exactly the AST's canonical rules, error lines must point at an offending line, no panic. "
+                "Distinct by hash of the text; non-trivial = non-empty text.",
+        "trusted_base": COMMON_TB + ["BTreeMap and Vec::sort modelled by a name-sorted association list / insertion sort"],
+        "assumptions": [
+            "theorems are about coq/Model/Parser.v and coq/Model/Bundle.v; tied to src/rule.rs and src/bundle.rs by suites c14_parser and c14_files_bundles",
+            "'never panics' for the Rust code is observed with catch_unwind on every generated input, not proved (the model is total by construction)",
+            "merging of repeated identical directory subtrees and the exact bundle error for every malformed bundle are covered by the correspondence only",
+        ],
+    },
 }
